@@ -18,7 +18,6 @@ import (
 
 const c03File = "middleware/parameter.go"
 
-
 // c03LabelString resolves a case label: a string literal or a package-level string constant.
 func c03LabelString(e ast.Expr) (string, bool) {
 	switch v := e.(type) {
